@@ -61,7 +61,7 @@ impl TaggedHash { pub fn as_ref(&self) -> (r: &TaggedHash) ensures r == self { s
     .map_err(|()| SignError::Signing)?
 //@with
     .map_err(|__u: ()| -> (e: SignError) ensures e is Signing { SignError::Signing })?
-//@rw R9
+//@rw R9 ?
     .map_err(|e| SignError::Verification(e))?
 //@with
     .map_err(|e: SecpError| -> (x: SignError) ensures x is Verification { SignError::Verification(e) })?
